@@ -250,6 +250,12 @@ def run_forms(case):
     derived = 0
     todo = []
     for strat in rulelib.strategies_for(rng):
+        if type(strat).__name__ == "TrackStat":
+            # a union child with a parameter the parent does not have: outside the documented
+            # parameter contract of DisjointUnion (its equation leaves that variable free);
+            # counting and generation are judged by C09/C07, the equation is not judged
+            cx.count("eq.child_parameter_without_parent_not_judged")
+            continue
         rule = rulelib.apply(strat, c)
         if rule is not None:
             todo.extend(rulelib.forms(rule))
